@@ -802,7 +802,65 @@ def val_confatomic(ctx: Ctx) -> RuleResult:
     return r
 
 
+def val_stored(ctx: Ctx) -> RuleResult:
+    """Whether a node has a stored value (a default, a constant, a setup result, a cached result) is decided by the membership of its id in
+    the results map - never by comparing the dereferenced value with None: None is a value (a default of None, a node that returned None)."""
+    r = RuleResult("VAL-STORED")
+    n_member = 0
+
+    def is_results(e: ast.AST) -> bool:
+        d = dotted(e) or ""
+        return d.split(".")[-1] in ("results", "cached_results")
+
+    def deref(e: ast.AST, f, at: ast.AST, depth: int = 0) -> Optional[str]:
+        """A description when e reads a value out of a results map."""
+        if isinstance(e, ast.Call) and isinstance(e.func, ast.Attribute):
+            if e.func.attr == "result" and e.args and is_results(e.args[0]):
+                return norm_src(e)
+            if e.func.attr == "get" and is_results(e.func.value) and len(e.args) == 1:
+                return norm_src(e)
+        if isinstance(e, ast.Subscript) and is_results(e.value):
+            return norm_src(e)
+        if isinstance(e, ast.Name) and depth < 3:
+            ds = [d for d in ctx.reaching_defs(f, e.id, at) if isinstance(d, ast.Assign) and len(d.targets) == 1 and isinstance(d.targets[0], ast.Name)]
+            outs = [deref(d.value, f, d, depth + 1) for d in ds]
+            if outs and all(outs):
+                return outs[0]
+        return None
+
+    for f in pkg_funcs(ctx):
+        if f.cls is not None and f.cls.name == "UsageExecNode":
+            continue  # the accessor itself
+        for n in iter_own_nodes(f.node):
+            if not isinstance(n, ast.Compare) or len(n.ops) != 1:
+                continue
+            if isinstance(n.ops[0], (ast.In, ast.NotIn)) and is_results(n.comparators[0]):
+                n_member += 1
+                continue
+            if not isinstance(n.ops[0], (ast.Is, ast.IsNot, ast.Eq, ast.NotEq)):
+                continue
+            a, b = n.left, n.comparators[0]
+            if isinstance(a, ast.Constant) and a.value is None:
+                a, b = b, a
+            if not (isinstance(b, ast.Constant) and b.value is None):
+                continue
+            try:
+                what = deref(a, f, n)
+            except Exception:
+                what = None
+            if what is None:
+                continue
+            r.ob(False, {"in": f.short, "test": norm_src(n)})
+            r.violate(f"{f.short}: a value read out of the results map is compared with None ({norm_src(n)[:80]})", f.loc(n),
+                      "a stored None (an argument whose default is None, a node or setup node that returned None, a cached None) is a value "
+                      "like any other; 'has a value' is the membership of the id in the map", what)
+    r.ob(n_member >= 2, {"membership tests on a results map seen": n_member})
+    r.require(n_member >= 2, f"only {n_member} membership tests on results maps found in the package (confirmed by hand: prune, compose, executor)")
+    return r
+
+
 RULES = {
+    "VAL-STORED": val_stored,
     "VAL-CONFKEYS": val_confkeys, "VAL-EMPTYFOLD": val_emptyfold, "VAL-POSTINIT": val_postinit, "VAL-CONFATOMIC": val_confatomic,
     "VAL-COMPOSE-OVERLAP": val_compose_overlap,
     "VAL-SYNTHSEQ": val_synthseq,
